@@ -133,7 +133,7 @@ fn judge_common(ctx: &Ctx, acc: &mut Acc, class: &str, case: &dyn Fn() -> Case, 
         Ok(d) => d,
         Err(p) => {
             if panic_in_scope {
-                viol(ctx, format!("panic {class} {}", panic_site(&p)), serde_json::to_value(case()).unwrap(), json!({"observed": format!("panic: {p}"), "expected": "an abstract value"}));
+                viol(ctx, acc, format!("panic {class} {}", panic_site(&p)), serde_json::to_value(case()).unwrap(), json!({"observed": format!("panic: {p}"), "expected": "an abstract value"}));
             } else {
                 acc.stat("panics_outside_scope_(non_boolean_operands)", 1);
             }
@@ -142,7 +142,7 @@ fn judge_common(ctx: &Ctx, acc: &mut Acc, class: &str, case: &dyn Fn() -> Case, 
     };
     let view = read_back(&dom);
     for (kind, text) in view.well_formed(expected_w) {
-        viol(ctx, format!("wellformed {kind} {class}"), serde_json::to_value(case()).unwrap(), json!({"observed": view.render(), "broken": text}));
+        viol(ctx, acc, format!("wellformed {kind} {class}"), serde_json::to_value(case()).unwrap(), json!({"observed": view.render(), "broken": text}));
     }
     let (inside, width) = view.hint_oddities();
     if inside {
@@ -155,7 +155,7 @@ fn judge_common(ctx: &Ctx, acc: &mut Acc, class: &str, case: &dyn Fn() -> Case, 
 }
 
 fn report_unsound(ctx: &Ctx, class: &str, case: &dyn Fn() -> Case, view: &View, members: serde_json::Value, concrete: Option<u128>) {
-    viol(ctx, 
+    viol(ctx, acc, 
         format!("soundness {class}"),
         serde_json::to_value(case()).unwrap(),
         json!({
